@@ -204,6 +204,7 @@ func (c14) Plan(tier string) []fw.Unit {
 	us := planEnum("C14", tier, len(c14Queries()), 8)
 	us = append(us, fw.Unit{Check: "C14", Kind: "when-cap", Tier: tier, Spec: fw.Spec(enumSpec{})})
 	us = append(us, fw.Unit{Check: "C14", Kind: "key-pairs", Tier: tier, Spec: fw.Spec(enumSpec{})})
+	us = append(us, fw.Unit{Check: "C14", Kind: "typed", Tier: tier, Spec: fw.Spec(enumSpec{})})
 	for sh := 0; sh < 4; sh++ {
 		us = append(us, fw.Unit{Check: "C14", Kind: "changed", Tier: tier, Spec: fw.Spec(enumSpec{Shard: sh, Shards: 4})})
 	}
@@ -248,6 +249,9 @@ func (c14) Run(u fw.Unit) fw.Result {
 	}
 	if u.Kind == "key-pairs" {
 		return c14KeyPairs()
+	}
+	if u.Kind == "typed" {
+		return c14Typed()
 	}
 	if u.Kind == "changed" {
 		return c14Changed(u)
@@ -465,6 +469,52 @@ func c14Changed(u fw.Unit) fw.Result {
 		})
 	}
 	a.sample(map[string]any{"queries": []string{q1, q2}})
+	return a.result()
+}
+
+// c14Typed: the value column as every Go numeric type: lag / latest / had_changed / acc_* must not depend on
+// the Go type of a number (all sequences of length 3 over 12 typed values and NULL, one partition).
+func c14Typed() fw.Result {
+	a := newAcc("C14", "analytic-typed")
+	qs := c14Queries()[:3] // lag-latest, acc, had-changed
+	for _, q := range qs {
+		sequences(3, len(c03Typed), func(ix []int) {
+			var rows []Row
+			var seq []c14In
+			for i, x := range ix {
+				row := Row{"k": "a", "id": i + 1}
+				c03Typed[x].Set(row, "v")
+				rows = append(rows, row)
+				in := c14In{K: "a"}
+				if c03Typed[x].Ref.Usable() {
+					in.V = fp(c03Typed[x].Ref.F)
+				}
+				seq = append(seq, in)
+			}
+			want := c14Reference(q, seq)
+			res, execErr, st, _ := syncEval(q.SQL, rows)
+			a.r.Evaluations++
+			a.r.States++
+			a.r.Transitions += 3
+			a.r.Nontrivial++
+			cs := map[string]any{"sql": q.SQL, "rows": rows}
+			if execErr != "" || st != sched.StatusOK {
+				a.fail("C14|typed|exec", execErr+" "+st.String(), cs, nil, nil)
+				return
+			}
+			for i := range rows {
+				if col, what := c14Compare(q, want[i], res[i].Row); col != "" {
+					var names []string
+					for _, x := range ix {
+						names = append(names, c03Typed[x].Name)
+					}
+					a.fail("C14|typed|"+q.Name+"|"+col, fmt.Sprintf("%s over v=%v: row %d: %s", q.SQL, names, i+1, what), cs, nil, res[i].Row)
+					return
+				}
+			}
+		})
+	}
+	a.sample(map[string]any{"types": "int, int8..int64, uint..uint64, float32, float64, NULL", "max_len": 3})
 	return a.result()
 }
 
